@@ -234,7 +234,7 @@ def check_iri(x: str, row):
 
 # ------------------------------------------------------------------ environ / request space
 
-P_ATOMS = ["a", "é", " ", ";", "+", ":", "@", "𝄞", "/", "%C3%A9", "名", "~", ".", "&", "=", "%20", "!"]
+P_ATOMS = ["a", "é", " ", ";", "+", ":", "@", "𝄞", "/", "%C3%A9", "名", "~", ".", "&", "=", "%20", "!", "%3F", "%23", "%2B", "%25", "%2541", "%252F"]
 Q_ATOMS = ["", "a", "é", " ", "&", "=", "+", "%", "𝄞", "#", ";", "?"]
 # (base_url given, scheme, host as the Host header may carry it (ascii, unicode), root path)
 BASES = [
@@ -243,6 +243,8 @@ BASES = [
     ("http://bücher.example/", "http", ("xn--bcher-kva.example", "bücher.example"), ""),
     ("http://localhost:5000/ä pp/x", "http", ("localhost:5000", "localhost:5000"), "/ä pp/x"),
     ("https://[::1]:8000/", "https", ("[::1]:8000", "[::1]:8000"), ""),
+    ("https://example.com:80/", "https", ("example.com:80", "example.com:80"), ""),
+    ("http://example.com:443/r", "http", ("example.com:443", "example.com:443"), "/r"),
 ]
 
 
@@ -538,7 +540,25 @@ def replay(rec):
     return any(s == rec.get("sig") for s, _ in fails), text
 
 
-FINDINGS: dict = {}
+def _f_literal_percent(rec) -> bool:
+    """Request.url / base_url for a PATH_INFO that contains a literal '%XX' text: the '%' is left as is
+    ("already quoted"), so the URL designates the decoded byte instead of the three characters.  Matches only
+    when the path itself was recovered correctly and the observed URL path is exactly what "treat the literal
+    %XX as an escape" produces; any other difference stays a VIOLATION."""
+    import re
+    from urllib.parse import quote as _q
+
+    if rec.get("kind") != "env" or rec.get("sig") not in ("env:url:path", "env:base_url:path"):
+        return False
+    given = unquote(rec["path"])
+    if re.search(r"%[0-9A-Fa-f]{2}", given) is None or rec["got"]["path"] != given:
+        return False
+    attr = rec["sig"].split(":")[1]
+    root = BASES[rec["base"]][3]
+    return meaning(rec["got"][attr])["path"] == canon(_q(root + given, safe="/%"), "/")
+
+
+FINDINGS: dict = {"C15-url-literal-percent-in-path": _f_literal_percent}
 
 LEVEL_TEXT = (
     "Exhaustive enumeration of URL component strings up to 3-4 atoms over an alphabet built from the per-component "
